@@ -704,6 +704,18 @@ func (st *Runtime) evalPrimaryExpressionGroup(node Expression) reflect.Value {
 	case NodeSliceExpr:
 		node := node.(*SliceExprNode)
 		baseExpression := st.evalPrimaryExpressionGroup(node.Base)
+		switch baseExpression.Kind() {
+		case reflect.String, reflect.Slice:
+		case reflect.Array:
+			if !baseExpression.CanAddr() {
+				// reflect slices addressable arrays only: slice a copy of the value
+				array := reflect.New(baseExpression.Type()).Elem()
+				array.Set(baseExpression)
+				baseExpression = array
+			}
+		default:
+			node.Base.errorf("cannot slice %s (%s)", node.Base, getTypeString(baseExpression))
+		}
 
 		var index, length int
 		if node.Index != nil {
